@@ -780,3 +780,46 @@ Lemma pool_nonvacuous :
   ps_stuck pool0 = false /\ ps_busy pool0 <= 16 /\
   ps_stuck (fst (pool_run true 16 pool0 (repeat Arrive 17))) = true.
 Proof. vm_compute. repeat split; congruence. Qed.
+
+(* ---------------- hostile datagrams and the table of outstanding RADIUS requests ---------------- *)
+Lemma rad_run_cons c p d r :
+  rad_run c p (d :: r) =
+  (fst (rad_run c (fst (rad_step c p d)) r),
+   match snd (rad_step c p d) with Some id => id :: snd (rad_run c (fst (rad_step c p d)) r)
+                                 | None => snd (rad_run c (fst (rad_step c p d)) r) end).
+Proof.
+  cbn [rad_run]. destruct (rad_step c p d) as [p1 o]. cbn [fst snd].
+  destruct (rad_run c p1 r) as [p2 os]. reflexivity.
+Qed.
+(* datagrams that are not an authentic reply are ignored: the table is untouched and nobody is woken *)
+Lemma rad_junk_ignored : forall ds p, forallb (fun d => negb (is_genuine d)) ds = true -> rad_run false p ds = (p, []).
+Proof.
+  induction ds as [|d r IH]; intros p H; [reflexivity|].
+  cbn [forallb] in H. apply andb_prop in H. destruct H as [Hd Hr].
+  rewrite rad_run_cons. destruct d; cbn [is_genuine negb] in Hd; try discriminate Hd;
+    cbn [rad_step andb fst snd]; rewrite (IH p Hr); reflexivity.
+Qed.
+(* ... so the genuine reply that follows any amount of them is still delivered to its requester *)
+Lemma rad_genuine_after_junk junk id rest p :
+  forallb (fun d => negb (is_genuine d)) junk = true -> pend_has id p = true ->
+  exists os, snd (rad_run false p (junk ++ DGenuine id :: rest)) = id :: os /\
+             fst (rad_run false p (junk ++ [DGenuine id])) = pend_del id p.
+Proof.
+  intros Hj Hp. revert p Hp. induction junk as [|d r IH]; intros p Hp.
+  - cbn [app]. rewrite !rad_run_cons. cbn [rad_step]. rewrite Hp. cbn [fst snd].
+    eexists. split; reflexivity.
+  - cbn [forallb] in Hj. apply andb_prop in Hj. destruct Hj as [Hd Hr].
+    cbn [app]. rewrite !rad_run_cons.
+    assert (Hs : rad_step false p d = (p, None)).
+    { destruct d; cbn [is_genuine negb] in Hd; try discriminate Hd; reflexivity. }
+    rewrite Hs. cbn [fst snd]. apply IH; assumption.
+Qed.
+(* clearing the slot at lookup time, before the reply is verified, violates this: one forged datagram with the right
+   identifier and the genuine reply is thrown away (seeded change C07_q3) *)
+Lemma rad_claim_first_refuted :
+  rad_run true [1] [DJunk 1; DGenuine 1] = ([], []) /\ rad_run false [1] [DJunk 1; DGenuine 1] = ([], [1]).
+Proof. split; vm_compute; reflexivity. Qed.
+Lemma rad_nonvacuous :
+  forallb (fun d => negb (is_genuine d)) (dgrams_of [0; 1; 2; 3; 4; 5; 6]) = true /\ pend_has 1 [1] = true /\
+  snd (rad_run false [1] (dgrams_of [0; 6; 2; 9; 0])) = [1].
+Proof. repeat split; vm_compute; reflexivity. Qed.
